@@ -227,6 +227,8 @@ var checks = map[string]*check{
 		},
 		Parts: []part{
 			// the plugin prints something and the application's SyncStdout writer cannot take it until Kill has returned
+			// a hand-written gRPC plugin whose Shutdown handler takes 1.5 s to acknowledge and whose process exits 1 s after that
+			{Name: "slow-acknowledgement", Kind: "explore", Scen: "raw_grpc_peer", Inst: inst("slow-ack", "slow-ack"), Depths: depths([]int{0, 1}, []int{0, 1, 2}), Budget: budget(2*time.Minute, 10*time.Minute)},
 			{Name: "blocked-sync-writer", Kind: "explore", Scen: "kill_plugin", Inst: inst("sink", "sink"), Depths: depths([]int{0, 1}, []int{0, 1, 2}), Budget: budget(3*time.Minute, 15*time.Minute)},
 			{Name: "sequential", Kind: "explore", Scen: "kill_plugin", Inst: inst("seq", "seq"), Depths: depths([]int{2}, []int{2, 3}), Budget: budget(3*time.Minute, 20*time.Minute)},
 			{Name: "concurrent", Kind: "explore", Scen: "kill_plugin", Inst: inst("conc", "conc-thorough"), Depths: depths([]int{2}, []int{2, 3}), Budget: budget(3*time.Minute, 20*time.Minute)},
